@@ -73,7 +73,14 @@ Fixpoint dop_of_tok (fuel : nat) (t : tok) : dop :=
     else if c =? 2 then DStatic (dop_of_tok f (tnth l 1)) (nthZ l 2) (nthZ l 3)
     else if c =? 3 then DDynLen (dop_of_tok f (tnth l 1)) (nthZ l 2) (nthZ l 3) (nthZ l 4) (dop_of_tok f (tnth l 5))
     else if c =? 4 then DEop (dop_of_tok f (tnth l 1))
-    else DEndMarker (dop_of_tok f (tnth l 1)) (dop_of_tok f (tnth l 2)) (value_of_tok fuel (tnth l 3))
+    else if c =? 5 then DEndMarker (dop_of_tok f (tnth l 1)) (dop_of_tok f (tnth l 2)) (value_of_tok fuel (tnth l 3))
+    else
+      let case_of := fun (t : tok) =>
+        let k := tl t in
+        MC (tzs (tnth k 0)) (nthZ k 1) (nthZ k 2)
+           (match tl (tnth k 3) with [x] => Some (dop_of_tok f x) | _ => None end) in
+      DMux (nthZ l 1) (nthZ l 2) (nthZ l 3) (dop_of_tok f (tnth l 4)) (map case_of (tl (tnth l 5)))
+           (match tl (tnth l 6) with [x] => Some (case_of x) | _ => None end)
   end
 with param_of_tok (fuel : nat) (t : tok) : param :=
   match fuel with
